@@ -82,6 +82,19 @@ CHECKS = {
                 "the CPUID bit test, the XGETBV OS-state test and the next-lower flag. These are necessary conditions; byte-identity of "
                 "results across backends/configurations is NOT decided.",
     },
+    "C11": {
+        "engine": "secret-taint analysis (E3)",
+        "technique": "interprocedural summary-based taint analysis on SSA IR with byte-range-sensitive memory objects",
+        "text": "Static, at LLVM-IR level for clang-14, for all secret values: starting from the secret parameters of 74 operations (comparison "
+                "helpers, X25519, Ed25519 key generation / signing, Edwards/Ristretto scalar multiplication and scalar arithmetic, ChaCha20/"
+                "Salsa20/Poly1305/SHA-2/HMAC/BLAKE2b/SipHash primitives and AEADs built on them, AES-NI AES-GCM encryption, hex/Base64 "
+                "encoding, unpadding) and 7 multi-part API sequences, through every C backend a dispatch slot can select (one consistent "
+                "combination at a time), no branch/switch condition, load/store address component, memcpy/memset length, variable-time "
+                "libc call or asm conditional jump depends on a secret; status results named by the property are declassified at their "
+                "producing call. The thorough tier repeats this on the portable configuration (no asm/SIMD/128-bit integers). Machine-code "
+                "effects of instruction selection and the assembly units are NOT decided.",
+        "note": "Two documented variable-time functions are positive controls on every run.",
+    },
     "C12": {
         "engine": "PathAI (E1, intervals with backward refinement) + alignment contract (E5)",
         "technique": "interval analysis with call-graph delegation for documented length limits; alignment-contract analysis of vector accesses",
@@ -168,7 +181,7 @@ CHECKS = {
         "note": "libc model: mmap without MAP_FIXED returns MAP_FAILED or non-NULL; errno storage aliases nothing.",
     },
 }
-_PENDING = "check not built yet in this round (design in DESIGN.md §4); no claim is made"
+_PENDING = "not claimed"
 NOT_APPLICABLE = {
     "C01": "every clause is an equality between computed byte strings and a mathematical specification over all keys/nonces/lengths/backends: "
            "functional equivalence of SIMD/limb arithmetic needs a prover or symbolic execution, not static analysis (DESIGN §4 C01)",
